@@ -351,7 +351,10 @@ class C08(Check):
         def calibrate(spec):
             cfg, batch, late = spec
             op = {'conc': batch, 'granularity': 'line', 'order': ['T0', 'T1'], 'preempts': [], 'trace': True}
-            r = freshproc.run('C08', {'world': 'chain', 'seed': base_seed, 'config': cfg, 'ops': [op, op], 'late_baseline': late})
+            try:
+                r = freshproc.run('C08', {'world': 'chain', 'seed': base_seed, 'config': cfg, 'ops': [op, op], 'late_baseline': late})
+            except Exception:
+                return []       # (the plans with fixed depths are made all the same: what goes wrong is the executor's to report)
             tr = r.extra.get('traces', [])
             if len(tr) != 2:
                 return []
